@@ -446,7 +446,7 @@ STAGES = [
           strategy=strategy,
           examples={
               "quick": 2400,
-              "thorough": 30000
+              "thorough": 60000
           },
           fork=True,
           rust=True),
